@@ -139,6 +139,7 @@ func runC01(c *Ctx) {
 	c.r0154(pk)
 	c.r0155(pk)
 	c.r0156(pk)
+	c.r0157(pk)
 	c.alsoUnder(map[string]string{"R09.22": "R01.36", "R09.23": "R01.37", "R09.24": "R01.42", "R09.25": "R01.43"}, nil, func() { c.r0922(pk); c.r0923(pk); c.r0924(pk); c.r0925(pk) })
 }
 
